@@ -397,6 +397,9 @@ class Base(_BaseClass):
         some have no expectation like S or COMMENT, so simply return
         the current value of self.__expected
         """
+        if new is None:
+            # not every caller keeps track of wellformedness
+            new = {}
 
         def ATKEYWORD(expected, seq, token, tokenizer=None):
             "default impl for unexpected @rule"
@@ -511,6 +514,9 @@ class Base2(Base, _NewBase):
         some have no expectation like S or COMMENT, so simply return
         the current value of self.__expected
         """
+        if new is None:
+            # not every caller keeps track of wellformedness
+            new = {}
 
         def ATKEYWORD(expected, seq, token, tokenizer=None):
             "default impl for unexpected @rule"
